@@ -250,6 +250,7 @@ DtClause(P, tp, g) ==
     ELSE IF {GotMember(g.internal[i]) : i \in 1..Len(g.internal)} # {ExpMember(P, tp.members[i]) : i \in 1..Len(tp.members)} THEN "C05:struct:members"
     ELSE IF g.string # (IF IsStringTpl(tp) THEN StringCap(tp) ELSE -1) THEN "C05:string"
     ELSE IF g.size # tp.size \/ g.count # Len(tp.members) \/ g.handle # tp.handle \/ g.defsize # DefSize(tp) THEN "C05:struct:template"
+    ELSE IF g.wire # tp.size THEN "C05:struct:wire-size"                   \* the codec built for the type takes exactly the structure's bytes
     ELSE ""
 
 UploadClause(lx, view, allprogs, fw) ==
